@@ -5,10 +5,12 @@ import (
 	_ "verif/mc/props/c01"
 	_ "verif/mc/props/c02"
 	_ "verif/mc/props/c03"
+	_ "verif/mc/props/c04"
 	_ "verif/mc/props/c05"
 	_ "verif/mc/props/c06"
 	_ "verif/mc/props/c07"
 	_ "verif/mc/props/c10"
+	_ "verif/mc/props/c12"
 	_ "verif/mc/props/c13"
 	_ "verif/mc/props/c14"
 	_ "verif/mc/props/c15"
